@@ -333,3 +333,41 @@ def integrator_argument_forms(ctx, py, prop):
                 fails.append(dict(increments_given_as=label, with_altitude=wa, raised=repr(exc)))
     ctx.standin("%s.rt.argument_forms" % prop, "Integrator on %d typed / stored forms of the same initial state and increments (int64, dict of ints, integer-table row, Fortran order, "
                 "extra / permuted columns), both altitude modes: bit-identical to the float64 form" % n_eval, n_eval, fails, time_s=__import__("time").time() - t0)
+
+
+_LEAN = {}
+
+
+def lean_induction(ctx, prop, theorems):
+    """The step from per-iteration obligations to the whole-run statement is proved in Lean (lean/Induction.lean, Mathlib only):
+    loop rule, termination from the lexicographic variant, chunking independence of a fold, "exactly once" from the cursor
+    invariant.  Thorough tier: the file is re-checked by `lean` (no `sorry`, standard axioms only); quick tier: recorded as an
+    assumption that names the theorems."""
+    import os
+    import shutil
+    import subprocess
+    import time as _time
+    here = os.path.dirname(os.path.dirname(os.path.abspath(__file__)))
+    path = os.path.join(here, "lean", "Induction.lean")
+    ctx.assume("whole-run statement from the per-iteration obligations: theorems %s of lean/Induction.lean (re-checked by lean in the thorough tier)" % ", ".join(theorems))
+    if ctx.tier == "quick":
+        return
+    t0 = _time.time()
+    if "res" not in _LEAN:
+        lean = shutil.which("lean")
+        if lean is None or not os.path.exists(path):
+            _LEAN["res"] = (None, "lean or lean/Induction.lean not found")
+        else:
+            try:
+                out = subprocess.run([lean, path], capture_output=True, text=True, timeout=1500)
+                txt = out.stdout + out.stderr
+                src = open(path).read()
+                bad = out.returncode != 0 or "error" in txt.lower() or "sorryAx" in txt or "declaration uses 'sorry'" in txt
+                missing = [t_ for t_ in theorems if ("theorem " + t_.split(".")[-1]) not in src]
+                _LEAN["res"] = (not bad and not missing, (txt.strip()[-600:] or "accepted") + ("" if not missing else " | missing: %s" % missing))
+            except Exception as exc:
+                _LEAN["res"] = (None, repr(exc))
+    ok, detail = _LEAN["res"]
+    ctx.ob("%s.induction.mechanised" % prop, "lemma", ok, "lean4+mathlib", _time.time() - t0,
+           "lean/Induction.lean accepted (theorems used here: %s); axioms reported by #print axioms: %s" % (", ".join(theorems), detail[-300:]) if ok
+           else "lean did not accept lean/Induction.lean: %s" % detail)
